@@ -19,7 +19,7 @@ ORACLE = r"""
 EXTENDS Ctor, Json, IOUtils
 Cases == JsonDeserialize(IOEnv.CASES)
 Fix(c) == [c EXCEPT !.ignored = IF c.nignored = 0 THEN <<>> ELSE c.ignored,
-                    !.override = IF c.override.k = "list" /\ c.noverride = 0 THEN [k |-> "list", v |-> <<>>] ELSE c.override]
+                    !.override = IF c.override.k # "int" /\ c.noverride = 0 THEN [k |-> c.override.k, v |-> <<>>] ELSE c.override]
 ASSUME JsonSerialize(IOEnv.OUT, [i \in 1..Len(Cases) |-> [outcome |-> Outcome(Fix(Cases[i])), resolved |-> Resolved(Fix(Cases[i]))]])
 ====
 """
@@ -41,7 +41,10 @@ NAN, PINF, NINF = {"k": "nan"}, {"k": "inf"}, {"k": "ninf"}
 FLOAT_GRID = [R(-1, 10), R(0, 1), R(1, 100), R(1, 2), R(9, 10), R(1, 1), R(11, 10), R(-1, 1), R(-2, 1), NAN, PINF, NINF]
 INT_GRID = [-2, -1, 0, 1, 2, 5, 1024]
 OVERRIDES = [{"k": "int", "v": -1}, {"k": "int", "v": 0}, {"k": "int", "v": 2}, {"k": "list", "v": []},
-             {"k": "list", "v": [0, 0]}, {"k": "list", "v": [2, -1]}, {"k": "list", "v": [1, 2, 3]}]
+             {"k": "list", "v": [0, 0]}, {"k": "list", "v": [2, -1]}, {"k": "list", "v": [1, 2, 3]},
+             # the documented type is int | Sequence[int]: tuples and ranges are sequences as well
+             {"k": "tuple", "v": [2, -1]}, {"k": "tuple", "v": [-1, 2]}, {"k": "tuple", "v": [1, 2]}, {"k": "tuple", "v": []},
+             {"k": "range", "v": [-1, 0, 1]}, {"k": "range", "v": [0, 1, 2]}]
 IGNOREDS = [[], [0], [0, 0], [0, 1]]
 GRAFTS = [{"type": t, "eps": e, "beta2": b}
           for t in ("none", "sgd", "adagrad", "rmsprop", "adam", "unknown")
@@ -52,13 +55,13 @@ INT_FIELDS = ["maxdim", "freq", "start", "tol"]
 BASELINES = [
     dict(lr=R(1, 100), beta1=R(9, 10), beta2=R(1, 1), beta3=R(-1, 1), eps=R(1, 1000000), momentum=R(0, 1), dampening=R(0, 1),
          wd=R(0, 1), maxdim=1024, freq=1, start=-1, override={"k": "int", "v": 0}, ignored=[], tol=3,
-         graft={"type": "none", "eps": R(1, 1000000), "beta2": R(1, 1)}, pc="shampoo", dc="none"),
+         graft={"type": "none", "eps": R(1, 1000000), "beta2": R(1, 1)}, pc="shampoo", dc="none", nesterov=False, bias_corr=True, decoupled=True),
     dict(lr=R(1, 100), beta1=R(9, 10), beta2=R(9, 10), beta3=R(1, 2), eps=R(1, 1000000), momentum=R(1, 2), dampening=R(1, 2),
          wd=R(1, 100), maxdim=2, freq=5, start=5, override={"k": "int", "v": 2}, ignored=[], tol=0,
-         graft={"type": "adam", "eps": R(1, 1000000), "beta2": R(1, 2)}, pc="soap", dc="none"),
+         graft={"type": "adam", "eps": R(1, 1000000), "beta2": R(1, 2)}, pc="soap", dc="none", nesterov=True, bias_corr=True, decoupled=False),
     dict(lr=R(0, 1), beta1=R(0, 1), beta2=R(1, 2), beta3=R(0, 1), eps=R(1, 1), momentum=R(0, 1), dampening=R(9, 10),
          wd=R(1, 1), maxdim=1, freq=2, start=5, override={"k": "int", "v": 0}, ignored=[0], tol=1,
-         graft={"type": "adagrad", "eps": R(1, 1), "beta2": R(1, 1)}, pc="shampoo", dc="none"),
+         graft={"type": "adagrad", "eps": R(1, 1), "beta2": R(1, 1)}, pc="shampoo", dc="none", nesterov=False, bias_corr=False, decoupled=True),
 ]
 
 
@@ -67,11 +70,34 @@ def domain(f):
         return FLOAT_GRID
     if f in INT_FIELDS:
         return INT_GRID
+    if f in BOOL_FIELDS:
+        return [False, True]
     return {"override": OVERRIDES, "ignored": IGNOREDS, "graft": GRAFTS, "pc": ["shampoo", "soap", "unknown"],
             "dc": ["none", "unknown"]}[f]
 
 
-FIELDS = FLOAT_FIELDS + INT_FIELDS + ["override", "ignored", "graft", "pc", "dc"]
+BOOL_FIELDS = ["nesterov", "bias_corr", "decoupled"]       # no documented restriction: Ctor!ValueOK does not mention them
+FIELDS = FLOAT_FIELDS + INT_FIELDS + ["override", "ignored", "graft", "pc", "dc"] + BOOL_FIELDS
+
+
+def random_kway(rng, base, count, ks=(3, 4, 5)):
+    """k fields off the baseline at once (interactions of three and more hyperparameters); valid values are preferred so that a
+    combination INSIDE the documented domain is reached often (a check that wrongly couples valid values only shows there)."""
+    out = []
+    for _ in range(count):
+        fs = tuple(rng.sample(FIELDS, rng.choice(ks)))
+        h = dict(base)
+        for f in fs:
+            dom = domain(f)
+            if f in FLOAT_FIELDS and rng.random() < 0.7:
+                dom = [R(1, 2), R(1, 100), R(9, 10)] + ([R(0, 1)] if f != "eps" else [])
+            elif f in INT_FIELDS and rng.random() < 0.7:
+                dom = [1, 2, 5]
+            h[f] = rng.choice(dom)
+        if "freq" in fs and "start" not in fs and h["start"] != -1:
+            h["start"] = max(h["start"], h["freq"])
+        out.append((h, fs))
+    return out
 
 
 def variations(base, k):
@@ -92,7 +118,7 @@ def to_float(a):
 def wire(h):
     c = dict(h)
     c["nignored"] = len(h["ignored"])
-    c["noverride"] = len(h["override"]["v"]) if h["override"]["k"] == "list" else 0
+    c["noverride"] = len(h["override"]["v"]) if h["override"]["k"] != "int" else 0
     return c
 
 
@@ -125,7 +151,9 @@ def construct(h, two_groups=False):
                   "unknown": WeirdPC}[h["pc"]]
         pc = pc_cls(num_tolerated_failed_amortized_computations=h["tol"], ignored_dims=list(h["ignored"]))
         dc = None if h["dc"] == "none" else WeirdDC()
-        ov = h["override"]["v"] if h["override"]["k"] == "int" else list(h["override"]["v"])
+        okind, ovals = h["override"]["k"], h["override"]["v"]
+        ov = ovals if okind == "int" else tuple(ovals) if okind == "tuple" else list(ovals) if okind == "list" else \
+            (range(ovals[0], ovals[-1] + 1) if ovals else range(0))
         p1 = torch.nn.Parameter(torch.zeros(3, 2))
         params = [p1]
         if two_groups:
@@ -136,6 +164,8 @@ def construct(h, two_groups=False):
             epsilon=to_float(h["eps"]), momentum=to_float(h["momentum"]), dampening=to_float(h["dampening"]),
             weight_decay=to_float(h["wd"]), max_preconditioner_dim=h["maxdim"], precondition_frequency=h["freq"],
             start_preconditioning_step=h["start"], inv_root_override=ov, grafting_config=graft,
+            use_nesterov=h.get("nesterov", False), use_bias_correction=h.get("bias_corr", True),
+            use_decoupled_weight_decay=h.get("decoupled", True),
             preconditioner_config=pc, distributed_config=dc)
         return "ok", opt
     except NotImplementedError:
@@ -188,6 +218,7 @@ def run(ctx):
         elif bi > 0:
             pairs = rng.sample(pairs, 6000)
         cases += pairs
+        cases += random_kway(rng, base, 500 if quick else 8000)
     exps = oracle_eval([h for h, _ in cases])
     seen_out = {}
     nontrivial = 0
@@ -204,7 +235,8 @@ def run(ctx):
     ctx.put("rule", "3 valid baselines; every hyperparameter varied one at a time over its boundary/interior/outside/NaN/inf grid "
                     "(exhaustive) and two at a time (exhaustive for baseline 1 in the thorough tier, seeded sample otherwise); the "
                     "spec's Outcome/Resolved (evaluated by TLC) must equal the real constructor's exception class / resolved "
-                    "beta3 and start step, also for a second param group that leaves them unset; non-trivial = at least one field off baseline")
+                    "beta3 and start step, also for a second param group that leaves them unset; seeded 3-5-way combinations biased to valid values "
+                    "(incl. the boolean flags, and the override as list / tuple / range); non-trivial = at least one field off baseline")
     ctx.sample({"h": cases[1][0], "expected": exps[1]})
     ctx.sample({"h": cases[-1][0], "changed": list(cases[-1][1]), "expected": exps[-1]})
     ctx.assume("unsupported config types are represented by ad-hoc subclasses defined in the harness")
